@@ -5,7 +5,7 @@ import os
 from lib.verif import *
 
 THEOREMS = [
-    "C12_deadline", "C12_deadline_blocks", "C12_no_spurious",
+    "C12_deadline", "C12_deadline_blocks", "C12_no_spurious", "C12_no_spurious_received",
     "C12_classification_total_direct", "C12_classification_total_refuted",
     "C12_classification_partial_broadcast", "C12_classification_total_fixed",
     "C12_no_failback_with_output", "C12_breach_all_failed",
@@ -238,16 +238,36 @@ def _not_due_at_broadcast(c, h):
     StateContractClosed does not consume."""
     env = c["env"]
     idx = h[0]
+    bop = next(((op, ob) for op, ob in zip(c["ops"], c["obs"]) if ob["fc"]), None)
+    if bop is None:
+        return False
+    op, ob = bop
     for l in c["active"]["l"]:
         if not l[1] and l[0] == idx:
-            return l[2] >= 0          # has an output on ours
+            if l[2] >= 0:
+                return True       # has an output on ours
+            # dust on ours: cancelled at broadcast iff our own commitment was
+            # classified then (user request, or an HTLC of OUR commitment at
+            # its cut-off; a chain trigger fired only by an HTLC dangling on
+            # the peer's commitment skips that classification)
+            if op["op"] == "user":
+                return False
+            return not any(_local_deadline(env, x, op["h"]) for x in c["active"]["l"])
     # absent from ours: cancelled at broadcast only if at its cut-off then
-    for op, ob in zip(c["ops"], c["obs"]):
-        if ob["fc"]:
-            cutoff = (h[3] - env["outd"]) % U32
-            due = op["h"] >= cutoff and (idx in env["fwd"] or env["uptime"] > env["grace"])
-            return not due
-    return False
+    cutoff = (h[3] - env["outd"]) % U32
+    due = (op["h"] >= cutoff and (idx in env["fwd"] or env["uptime"] > env["grace"])
+           and not _known(env, h[4]))      # a dangling HTLC we can settle is left alone
+    return not due
+
+
+def _local_deadline(env, h, height):
+    idx, inc, _out, expiry, hashid = h
+    delta = env["ind"] if inc else env["outd"]
+    if height < (expiry - delta) % U32:
+        return False
+    if inc:
+        return _known(env, hashid)
+    return idx in env["fwd"] or env["uptime"] > env["grace"]
 
 
 # ----------------------------------------------------------------------- run
